@@ -28,7 +28,7 @@ TRUSTED = [
     "C01/C02 world model: the simulated kernel (process table of incarnations, a tick clock that stamps every spawn with a strictly larger `start`, a published btime) and the fake procfs renderer of harness/props/c01.py (/proc/<pid>/stat field 22 + state letter, /proc/stat btime line)",
     "C01/C02 atomicity: kernel events happen between psutil calls, never inside one (the check-then-kill window of os.kill without pidfd is inherent and outside the model)",
     "C01/C02 arithmetic: create time is modelled exactly as start + CLOCK_TICKS*boot (scaled by CLOCK_TICKS); the implementation computes start/CLOCK_TICKS + boot in doubles — injective in `start` for start < 2^53 and boot < 2^32",
-    "C01: EPERM (AccessDenied) from the OS entry points, the Windows branches of send_signal/suspend/…, `cpu_affinity([])` (expansion to all eligible CPUs) and `(pid, None)` identities (Popen over an already reaped child) are outside the model",
+    "C01: EPERM (AccessDenied) from the OS entry points, the Windows branches of send_signal/suspend/…, which CPUs of the full mask handed over by `cpu_affinity([])` the kernel keeps (C18's subject) and `(pid, None)` identities (Popen over an already reaped child) are outside the model",
 ]
 ASSUMPTIONS = [
     "the published boot time (btime line of /proc/stat) is never 0 (C01/C02 theorems carry `b ≠ 0` explicitly)",
@@ -283,6 +283,21 @@ def _io_no_value(plat):
     raise NotRecognised("ionice_set: 'ioclass accepts no value' test not recognised")
 
 
+def _affinity_reset_mask(init):
+    """N of the `range(N)` the Linux branch of `if not cpus:` in Process.cpu_affinity asks for"""
+    fn = _find_method(init, "Process", "cpu_affinity")
+    for n in ast.walk(fn):
+        if isinstance(n, ast.If) and isinstance(n.test, ast.UnaryOp) and isinstance(n.test.op, ast.Not) \
+                and extract.dotted(n.test.operand) == "cpus":
+            for m in n.body:
+                if isinstance(m, ast.If) and extract.dotted(m.test) == "LINUX":
+                    rs = [c for st in m.body for c in ast.walk(st)
+                          if isinstance(c, ast.Call) and extract.dotted(c.func) == "range" and len(c.args) == 1]
+                    if len(rs) == 1:
+                        return int(extract.const(rs[0].args[0]))
+    raise NotRecognised("cpu_affinity: `if not cpus: if LINUX: … range(N)` not recognised")
+
+
 def all_facts(snap, F):
     init = extract.parse_module(snap, "__init__.py")
     plat = extract.parse_module(snap, "_pslinux.py")
@@ -315,6 +330,8 @@ def all_facts(snap, F):
               lambda: extract.lean_bool(_refusal_before(_find_method(plat, "Process", "rlimit"),
                                                         lambda t: _cmp_is(t, ("self.pid",), ast.Eq, 0), "ValueError", "resource.prlimit")),
               "_pslinux.Process.rlimit raises ValueError for pid 0 before resource.prlimit")
+    F.try_add("affinityResetMask", "Nat", lambda: extract.lean_nat(_affinity_reset_mask(init)),
+              "Process.cpu_affinity(<empty sequence>) on Linux hands range(N) to cpu_affinity_set")
     F.try_add("ioNoValue", "List Int", lambda: extract.lean_list(_io_no_value(plat), extract.lean_int),
               "ioclasses for which ionice_set rejects a non-zero value")
 
@@ -576,8 +593,9 @@ class Impl:
                     r = p.ionice(a[0], a[1])
                 elif kind == "rlimit" and len(a) >= 1:
                     r = p.rlimit(a[0], tuple(a[1:]))
-                elif kind == "affinity" and len(a) >= 1:
-                    r = p.cpu_affinity(list(a))
+                elif kind == "affinity":
+                    # (an empty sequence = "all eligible CPUs"; lists and tuples are both documented shapes)
+                    r = p.cpu_affinity(tuple(a) if op.get("tuple") else list(a))
                 else:
                     raise BadCall()
                 return {"kind": "unit"} if r is None else {"kind": "value", "v": repr(r)}
@@ -650,8 +668,17 @@ def same_out(im, mo):
     return im == mo
 
 
+def compress(arg):
+    """canonical form of effect values: a list 0, 1, …, n-1 with n > 64 (the full mask of cpu_affinity([])) is
+    written {"range": n} — by the driver too (Model/C01Driver.lean: jArg); bijective, so nothing is hidden"""
+    arg = list(arg)
+    if len(arg) > 64 and arg == list(range(len(arg))):
+        return {"range": len(arg)}
+    return arg
+
+
 def norm_eff(e):
-    return {"kind": e["kind"], "obj": e["obj"], "pid": e["pid"], "arg": list(e["arg"]), "owner": e["owner"]}
+    return {"kind": e["kind"], "obj": e["obj"], "pid": e["pid"], "arg": compress(e["arg"]), "owner": e["owner"]}
 
 
 def spec_violation(op, im, effs, sp, prop):
@@ -696,9 +723,9 @@ def spec_violation(op, im, effs, sp, prop):
                 want = sp.get("want_arg")
                 if e["kind"] != sp.get("want_kind"):
                     return "effect kind %s, asked %s" % (e["kind"], sp.get("want_kind"))
-                if e["kind"] == "affinity":
+                if e["kind"] == "affinity" and isinstance(want, list):
                     want = sorted(set(want))
-                if list(e["arg"]) != want:
+                if e["arg"] != want:
                     return "values %r handed to the OS, asked %r" % (e["arg"], want)
             if not sp["listed"]:
                 if effs:
@@ -776,6 +803,11 @@ def first_problem(result, prop, drift=None):
             # inside a oneshot() block ppid() is memoised by design (C16: the value of the first read in the block),
             # so a repeated call may answer from the cache instead of raising NoSuchProcess; it is a query, not a
             # signal/setter: C01 only requires that it reaches nothing
+            continue
+        if o["op"] == "status" and depth.get(o["i"], 0) > 0 and not ie and not me:
+            # inside a oneshot() block on that object name()/status() are served from the memoised stat record
+            # (C16: the record read first in the block), so str(p) may show the state the process had then; the
+            # status theorems speak about str(p) taken outside a block
             continue
         why = spec_violation(o, im, ie, sp, prop)
         if why is None and o["op"] == "is_running" and im.get("kind") == "bool" and prop in ("C02", None):
@@ -865,7 +897,11 @@ class Plan:
         elif kind == "rlimit":
             args = [rng.randrange(0, 16)] + [rng.choice([0, 1, 1024, 2**63 - 1]) for _ in range(rng.choice([2, 2, 2, 2, 0, 1, 3]))]
         else:
-            args = [rng.randrange(0, 8) for _ in range(rng.randrange(1, 5))]
+            # (empty = "all eligible CPUs"; list or tuple)
+            args = [rng.randrange(0, 8) for _ in range(rng.choice([0, 0, 1, 1, 2, 3, 4]))]
+            if rng.random() < 0.3:
+                self.ev(op="setter", i=i, k=kind, args=args, tuple=True)
+                return
         self.ev(op="setter", i=i, k=kind, args=args)
 
     def effect_call(self, i):
@@ -1259,19 +1295,20 @@ def iter_on_empty_table(ops):
 
 def exhaustive_iter(maxlen, btime=1000):
     """all histories `spawn · Process · reap · spawn · w` (a stale handle 0 on a PID that has just been recycled),
-    |w| <= maxlen, over {process_iter(), is_running(0), is_running(1), reap, spawn, kill(1), ==(0,1)} in which every
-    call names an existing object: every interleaving of sweeps of process_iter() with the call that flags the
+    |w| <= maxlen, over {process_iter(), is_running(0), is_running(1), reap, spawn, kill(1), ==(0,1), cpu_affinity(0, [])}
+    containing a process_iter() or a cpu_affinity([]), in which every call names an existing object: every interleaving of sweeps of process_iter() with the call that flags the
     reuse and with further recyclings; handle 1 comes from process_iter() or not at all"""
     p = 5
     alphabet = [
         {"op": "process_iter"}, {"op": "is_running", "i": 0}, {"op": "is_running", "i": 1},
         {"op": "reap", "pid": p}, {"op": "spawn", "pid": p},
         {"op": "signal", "i": 1, "m": "kill", "sig": 0}, {"op": "eq", "i": 0, "j": 1},
+        {"op": "setter", "i": 0, "k": "affinity", "args": []},
     ]
     head = [{"op": "spawn", "pid": p}, {"op": "new", "pid": p}, {"op": "reap", "pid": p}, {"op": "spawn", "pid": p}]
     for n in range(1, maxlen + 1):
         for combo in itertools.product(alphabet, repeat=n):
-            if not any(o["op"] == "process_iter" for o in combo):
+            if not any(o["op"] in ("process_iter", "setter") for o in combo):
                 continue
             ops = head + [dict(o) for o in combo]
             if not well_indexed(ops) or iter_on_empty_table(ops):
@@ -1361,7 +1398,16 @@ def witness_corpus(clk):
         {"op": "process_iter"}, {"op": "status", "i": 0}, {"op": "signal", "i": 0, "m": "kill", "sig": 0},
         {"op": "status", "i": 0}, {"op": "process_iter"}, {"op": "process_iter"}, {"op": "enter", "i": 1},
         {"op": "signal", "i": 1, "m": "terminate", "sig": 0}, {"op": "is_running", "i": 0}, {"op": "is_running", "i": 1}]}
-    return [l1, l2, l2b, it, it2]
+    # seeded C01-2: the empty sequence ("all eligible CPUs") through a stale handle, as list and as tuple, before and
+    # after is_running() noticed; and on the live handle (full mask delivered to the object's own process)
+    aff = {"btime": 1000, "family": "corpus:affinity-empty-stale", "hyp": True, "ops": [
+        {"op": "spawn", "pid": 7}, {"op": "new", "pid": 7}, {"op": "setter", "i": 0, "k": "affinity", "args": []},
+        {"op": "reap", "pid": 7}, {"op": "spawn", "pid": 7},
+        {"op": "setter", "i": 0, "k": "affinity", "args": []},
+        {"op": "setter", "i": 0, "k": "affinity", "args": [], "tuple": True},
+        {"op": "is_running", "i": 0}, {"op": "setter", "i": 0, "k": "affinity", "args": []},
+        {"op": "new", "pid": 7}, {"op": "setter", "i": 1, "k": "affinity", "args": [], "tuple": True}]}
+    return [l1, l2, l2b, it, it2, aff]
 
 
 def correspond_for(ctx, res, prop, driver_file, n_quick, n_thorough):
@@ -1422,8 +1468,8 @@ def correspond_for(ctx, res, prop, driver_file, n_quick, n_thorough):
                           "only those in which every call names an object that exists at that point — other calls never "
                           "reach psutil); all histories spawn·Process·w, |w| <= %d, over {enter oneshot(0), leave(0), reap, spawn, kill(0), "
                           "nice(0), ppid(0), is_running(0)} containing an enter; all well-indexed histories spawn·Process·reap·spawn·w, "
-                          "|w| <= %d, over {process_iter(), is_running(0), is_running(1), reap, spawn, kill(1), ==(0,1)} containing a "
-                          "process_iter(); the random families are samples"
+                          "|w| <= %d, over {process_iter(), is_running(0), is_running(1), reap, spawn, kill(1), ==(0,1), cpu_affinity(0, [])} "
+                          "containing a process_iter() or a cpu_affinity([]); the random families are samples"
                           % (len(hists) - n_rand, maxlen, maxlen, 4 if ctx.tier == "quick" else 5, 4 if ctx.tier == "quick" else 5))
         res.extra["driver_lines"] = total_lines
         res.extra["clock_ticks"] = impl.clk
